@@ -283,6 +283,54 @@ theorem gather {s : Sock} {f : Q α} {r : Res α} {σ σ' : St} (h : Steps s f r
 
 end Steps
 
+/-! ### replies of several datagrams, partly delivered -/
+
+/-- an incomplete selection of `pool` is the head of an arrangement of `pool` whose rest is not empty -/
+theorem selects_perm : ∀ (got pool : List Bytes), Faults.selects got pool = true →
+    ∃ more, more ≠ [] ∧ (got ++ more).Perm pool := by
+  intro got
+  induction got with
+  | nil =>
+    intro pool h
+    exact ⟨pool, by simpa [Faults.selects] using h, by simp⟩
+  | cons d r ih =>
+    intro pool h
+    simp only [Faults.selects, Bool.and_eq_true, List.contains_iff_mem] at h
+    obtain ⟨more, hne, hp⟩ := ih (pool.erase d) h.2
+    exact ⟨more, hne, (List.Perm.cons d hp).trans (List.perm_cons_erase h.1).symm⟩
+
+theorem selects_mem {got pool : List Bytes} (h : Faults.selects got pool = true) : ∀ d ∈ got, d ∈ pool := by
+  obtain ⟨more, _, hp⟩ := selects_perm got pool h
+  exact fun d hd => hp.subset (List.mem_append_left _ hd)
+
+theorem selects_length {got pool : List Bytes} (h : Faults.selects got pool = true) : got.length < pool.length := by
+  obtain ⟨more, hne, hp⟩ := selects_perm got pool h
+  have := hp.length_eq
+  have : 0 < more.length := List.length_pos_iff.mpr hne
+  simp only [List.length_append] at *
+  omega
+
+/-- of a reply of one datagram (or none) nothing can be delivered short of all -/
+theorem partOf_short {got pool : List Bytes} (h : Faults.partOf got pool = true) (hp : pool.length ≤ 1) : got = [] := by
+  cases got with
+  | nil => rfl
+  | cons d r =>
+    have hs : Faults.selects (d :: r) pool = true := by simpa [Faults.partOf] using h
+    have := selects_length hs
+    simp only [List.length_cons] at this
+    omega
+
+theorem partOf_mem {got pool : List Bytes} (h : Faults.partOf got pool = true) : ∀ d ∈ got, d ∈ pool := by
+  cases got with
+  | nil => intro d hd; cases hd
+  | cons d r => exact selects_mem (by simpa [Faults.partOf] using h)
+
+theorem partOf_length {got pool : List Bytes} (h : Faults.partOf got pool = true) (hne : got ≠ []) :
+    got.length < pool.length := by
+  cases got with
+  | nil => exact absurd rfl hne
+  | cons d r => exact selects_length (by simpa [Faults.partOf] using h)
+
 /-! ### the primitives -/
 
 /-- a send whose flag is `false` goes out -/
